@@ -6,7 +6,7 @@ CONSTANTS
   MaxTree = 2
   MaxFaults = 1
   Depth = 0
-  Dialect = "memory"
+  Dialect = "postgresql"
 INIT Init
 NEXT Next
 VIEW StateView
